@@ -5,6 +5,7 @@ from c11 import norinori as _nn
 NAME = "lits"
 MODULE = "cspuz.puzzle.lits"
 FUNC = "solve_lits"
+TIER1 = ("Lits", "solve_lits_model")
 
 
 def call(mod, pb):
@@ -54,3 +55,25 @@ def big(tier, rng):
                 k += 1
                 if k >= (16 if th else 4):
                     break
+
+
+def tier1_problems(tier, rng):
+    """program-capture tie: every room layout of the tiniest boards (both orientations), random layouts with small and
+    large rooms on small, non-square, long thin and larger boards (rooms below, at and above four cells; cells with 0..4
+    neighbours in their room), a block list with an empty block in between, boards without cells (ValueError)"""
+    th = tier == "thorough"
+    for (h, w) in [(1, 1), (1, 2), (2, 1), (1, 3), (3, 1), (2, 2), (1, 4), (4, 1), (2, 3), (3, 2)]:
+        parts = list(L.region_partitions(h, w))
+        for blocks in (parts if th else L.sample(rng, parts, 12)):
+            yield {"h": h, "w": w, "blocks": blocks}
+    for (h, w) in [(1, 5), (5, 1), (3, 3), (2, 5), (5, 2), (3, 4), (4, 4), (3, 6), (6, 5), (5, 7), (7, 7), (1, 9), (9, 1),
+                   (8, 8), (2, 21)]:
+        for _ in range(8 if th else 3):
+            k = rng.randint(1, max(1, h * w // rng.choice([2, 4, 6])))
+            yield {"h": h, "w": w, "blocks": L.random_rooms(rng, h, w, k)}
+        yield {"h": h, "w": w, "blocks": [[[y, x] for y in range(h) for x in range(w)]]}
+    for (h, w) in [(3, 3), (4, 5)]:
+        blocks = L.random_rooms(rng, h, w, 3)
+        yield {"h": h, "w": w, "blocks": [blocks[0], [], blocks[1], [], blocks[2]]}
+    for (h, w) in [(0, 0), (0, 2), (2, 0)]:
+        yield {"h": h, "w": w, "blocks": []}
